@@ -4,6 +4,7 @@ Everything here is a pure function of its arguments: the generator (hypothesis) 
 and names; ``build`` / ``mutate`` turn them into bytes. ``judge_step`` is the per-read oracle.
 """
 import re
+import signal
 
 import http.client as _hc
 
@@ -22,7 +23,15 @@ HEADERS = [
     'Accept: */*', 'User-Agent: c14/1.0 (x; y)', 'Cookie: sid=abc123; theme=dark', 'Connection: keep-alive',
     'Connection: close', 'X-Custom: some value', 'Accept-Language: en, de;q=0.5', 'X-Folded: one\r\n two\r\n\tthree',
     'Referer: http://example.org/a?b=c', 'Authorization: Basic dTpw', 'If-None-Match: "abc"', 'Accept-Encoding: gzip',
+    # folded lines of headers whose value is echoed (Cookie -> Set-Cookie, X-Custom -> X-Echo) and long values (30-200 visible chars)
+    'Cookie: sid=abc123;\r\n theme=dark', 'Cookie: a="b\r\n\tc"; d=e', 'X-Custom: folded\r\n  custom value',
+    'User-Agent: Mozilla/5.0 (X11; Linux x86_64; rv:128.0) Gecko/20100101 Firefox/128.0',
+    'X-Token: ' + '0123456789abcdef' * 4,
+    'Accept: text/html,application/xhtml+xml,application/xml;q=0.9,\r\n image/avif,image/webp,*/*;q=0.8',
+    'X-Long: ' + 'lorem ipsum dolor sit amet ' * 7,
 ]
+# the Host line (optional grammar field 'hf'): plain, folded after the colon, folded inside the value
+HOSTS = ['Host: example.org', 'Host:\r\n example.org', 'Host: example\r\n\t.org', 'Host: example.org\r\n ']
 CTYPES = [None, None, 'text/plain', 'application/x-www-form-urlencoded', 'multipart/form-data; boundary=XyZ',
           'application/json', 'application/octet-stream']
 MULTIPART = ('--XyZ\r\nContent-Disposition: form-data; name="a"\r\n\r\n1\r\n'
@@ -41,7 +50,7 @@ def build(base):
     method = METHODS[base['m'] % len(METHODS)]
     target = TARGETS[base['t'] % len(TARGETS)]
     version = VERSIONS[base['v'] % len(VERSIONS)]
-    lines = ['%s %s %s' % (method, target, version), 'Host: example.org']
+    lines = ['%s %s %s' % (method, target, version), HOSTS[base.get('hf', 0) % len(HOSTS)]]
     for h in base['h'][:5]:
         lines.append(HEADERS[h % len(HEADERS)])
     kind = BODY_KINDS[base['b'] % len(BODY_KINDS)]
@@ -95,6 +104,18 @@ BAD_CE = [b'gzip', b'deflate', b'br', b'GZIP']
 COOKIES = [b'a=b; \x01=\x02;;;=', b'=', b'a="unterminated', b'a=b\\r\\nSet-Cookie: x=y', b'\xff=\xfe', b'a=' + b'v' * 5000, b'expires=1; path=2',
            b'a=b; $Version=1', b'\\u20ac=1', b'a=\\u20ac', b'a="\\u20ac"', b'a="\\xe9\\xff"', b'a="\\U0001F600"; b=c', b'a="b\\r\\nX y"']
 TOKENS = [b'\r\n', b'\r', b'\n', b' ', b':', b'\\', b'%', b'\t', b'\x7f', b'\x0b', b'\r\n\r\n', b'\x00\x00', b'\\x', b'#', b'\r\n ']
+# Fragments for a folded continuation line / the tail of a long value. The parser decodes backslash escapes, so a CR, LF, NUL
+# or a character outside latin-1 can arrive raw or as an escape (hex, octal, \\u, \\U, \\N{}); none of those can be copied
+# into a response head. The last ones are legal (raw high bytes, DEL, VT) or undecodable escapes: the control group.
+HOSTILE = [b'\x00', b'\\x00', b'\\r\\nX-Injected: 1', b'\\r\\n\\r\\nHTTP/1.1 200 OK\\r\\nContent-Length: 0\\r\\n\\r\\n',
+           b'\\nX-Injected: 1', b'\\r', b'\\n', b'\\u20ac', b'\\u0100', b'\\U0001F600', b'\\ud800', b'\\N{BULLET}', b'\x00\x00',
+           b'\\0', b'\\12', b'\\15\\12X: y', b'\\x0d\\x0aX: y',
+           b'\xff\xfe', b'\\xff', b'\\xe9', b'\x7f', b'\x0b', b'\\x', b'\\', b'\\u12']
+FOLD_WS = [b' ', b'\t', b'  ', b' \t ']
+NONCANONICAL = [b'/echo/../echo', b'/./echo', b'//echo', b'/echo/./']      # answered with a redirect that copies Host into Location
+LONG_LENS = [30, 33, 40, 48, 64, 70, 100, 140, 200]
+LONG_UNITS = [b'Mozilla/5.0 (X11; Linux x86_64; rv:128.0) Gecko/20100101 Firefox/128.0 ', b'0123456789abcdef', b'a',
+              b'lorem ipsum dolor ', b'dTpwYXNzd29yZA==,']
 TLS = [
     b'\x16\x03\x01\x02\x00\x01\x00\x01\xfc\x03\x03' + bytes(range(40)),      # TLS 1.0 record, 1.2 hello
     b'\x16\x03\x03\x00\x31\x01\x00\x00\x2d\x03\x03' + b'\xaa' * 32,
@@ -312,6 +333,81 @@ def m_h_fold_first(d, a, b):
     return _join(first, [[b' folded', b'\tfolded: x', b' '][a % 3]] + hl, rest)
 
 
+def _hostile(a):
+    """(fragment, rest of the selector)"""
+    return HOSTILE[a % len(HOSTILE)], a // len(HOSTILE)
+
+
+def m_h_fold_bad(d, a, b):
+    """A hostile fragment on a folded continuation line (obs-fold: the line starts with SP/HTAB), preferably of a header whose
+    value is echoed into the response (Cookie -> Set-Cookie, Host -> Location of a redirect, X-Custom -> X-Echo of /reflect)."""
+    frag, a = _hostile(a)
+    fold = b'\r\n' + FOLD_WS[a % len(FOLD_WS)]
+    a //= len(FOLD_WS)
+    cont = [frag, b'x' + frag + b'y', b'xy' + frag][a % 3]
+    k, b = b % 7, b // 7
+    if k == 0:
+        return _set_header(d, b'Cookie', b'a="b' + fold + cont + b'c"', b)
+    if k == 1:
+        return _set_header(d, b'Cookie', b'sid=abc123;' + fold + b'x="' + cont + b'"' + (b'; y=z' if b % 2 else b''), b)
+    if k == 2:
+        d = _set_header(d, b'Host', [b'exa' + fold + cont + b'mple.org', b'example.org' + fold + cont, fold + cont + b'example.org'][b % 3])
+        if (b // 3) % 4:
+            d = _reqline(d, lambda line: _set_field(line, 1, NONCANONICAL[(b // 12) % len(NONCANONICAL)]))
+        return d
+    if k == 3:
+        d = _set_header(d, b'X-Custom', b'v' + fold + cont, b)
+        return _reqline(d, lambda line: _set_field(line, 1, b'/reflect')) if b % 4 else d
+    if k == 4:
+        # a second continuation line: the first one is harmless
+        return _add_header(d, [b'Cookie: ', b'X-Fold: '][b % 2] + b'k=v;' + fold + b'w=1;' + fold + b'q="' + cont + b'"', b // 2)
+    # k >= 5: continuation line appended to a header line that is there (k == 5: of an echoed header if there is one; also: to a
+    # continuation line)
+    h = _head(d)
+    if h is None or not h[1]:
+        return d + fold[2:] + cont + b'\r\n'
+    first, hl, rest = h
+    idx = [i for i, ln in enumerate(hl) if ln.lower().startswith((b'cookie:', b'host:', b'x-custom:'))] if k == 5 else []
+    idx = idx or list(range(len(hl)))
+    i = idx[b % len(idx)]
+    while b % 2 and i + 1 < len(hl) and hl[i + 1][:1] in (b' ', b'\t'):
+        i += 1      # after the last continuation line the header already has
+    if k == 5:
+        # make the echo likely: quoted cookie value / the controller that reflects X-Custom / a path that is redirected
+        name = hl[idx[b % len(idx)]].lower()
+        if name.startswith(b'cookie:'):
+            cont = b'; q="' + cont + b'"'
+        elif name.startswith(b'x-custom:'):
+            first = _set_field(first, 1, b'/reflect')
+        elif name.startswith(b'host:'):
+            first = _set_field(first, 1, NONCANONICAL[(b // 2) % len(NONCANONICAL)])
+    return _join(first, hl[:i + 1] + [fold[2:] + cont] + hl[i + 1:], rest)
+
+
+def m_h_long_bad(d, a, b):
+    """A long header value (30-200 visible characters) with a hostile fragment at or near its end."""
+    frag, a = _hostile(a)
+    n = LONG_LENS[a % len(LONG_LENS)]
+    a //= len(LONG_LENS)
+    tail = frag + [b'', b'x', b'xyz', b' z'][a % 4]
+    unit = LONG_UNITS[(b // 6) % len(LONG_UNITS)]
+    body = (unit * (n // len(unit) + 1))[:n].rstrip() + b'!'
+    k = b % 6
+    if k == 0:
+        return _set_header(d, b'User-Agent', body + tail, b)
+    if k == 1:
+        return _add_header(d, b'X-Token: ' + body + tail, b)
+    if k == 2:
+        return _set_header(d, b'Cookie', b'sid=' + body.replace(b' ', b'+').replace(b';', b',') + tail, b)
+    if k == 3:
+        return _set_header(d, b'Referer', b'http://example.org/' + body.replace(b' ', b'/') + tail, b)
+    if k == 4:
+        d = _set_header(d, b'X-Custom', body + tail, b)
+        return _reqline(d, lambda line: _set_field(line, 1, b'/reflect')) if b % 4 else d
+    # the long part on the first line, the offending end on a folded line
+    return _add_header(d, b'X-Long: ' + body + b'\r\n ' + body[:n // 2] + tail, b)
+
+
 def m_h_host(d, a, b):
     k = b % 5
     if k == 0:
@@ -502,6 +598,7 @@ OPS = {
     'rl_target': m_rl_target, 'rl_long': m_rl_long, 'rl_only': m_rl_only, 'lf': m_lf, 'rl_empty': m_rl_empty,
     'h_nocolon': m_h_nocolon, 'h_badname': m_h_badname, 'h_big_value': m_h_big_value, 'h_big_name': m_h_big_name,
     'h_many': m_h_many, 'h_escape': m_h_escape, 'h_fold_first': m_h_fold_first, 'h_host': m_h_host, 'h_cookie': m_h_cookie,
+    'h_fold_bad': m_h_fold_bad, 'h_long_bad': m_h_long_bad,
     'h_te': m_h_te, 'h_ce': m_h_ce, 'h_ctype': m_h_ctype, 'body_bytes': m_body_bytes,
     'cl_value': m_cl_value, 'cl_dup': m_cl_dup, 'cl_te': m_cl_te, 'cl_off': m_cl_off,
     'ch_size': m_ch_size, 'ch_noterm': m_ch_noterm, 'ch_nolast': m_ch_nolast,
@@ -512,7 +609,10 @@ OP_NAMES = sorted(OPS)
 # families named by the quantifier -> operators (for the class counters)
 FAMILY = {
     'request-line': ('rl_nospace', 'rl_extra', 'rl_method', 'rl_version', 'rl_target', 'rl_long', 'rl_only', 'lf', 'rl_empty'),
-    'header': ('h_nocolon', 'h_badname', 'h_many', 'h_fold_first', 'h_host', 'h_cookie', 'h_te', 'h_ce', 'h_ctype'),
+    'header': ('h_nocolon', 'h_badname', 'h_many', 'h_fold_first', 'h_host', 'h_cookie', 'h_te', 'h_ce', 'h_ctype', 'h_fold_bad',
+               'h_long_bad'),
+    'folded-hostile': ('h_fold_bad',),
+    'long-value-hostile-end': ('h_long_bad',),
     'oversized': ('h_big_value', 'h_big_name', 'rl_long', 'h_many'),
     'content-length': ('cl_value', 'cl_dup', 'cl_te', 'cl_off'),
     'chunk': ('ch_size', 'ch_noterm', 'ch_nolast'),
@@ -652,6 +752,130 @@ def two_messages_possible(buf):
     return bool(m) and m.end() < len(buf)
 
 
+# ---------------------------------------------------------------------------------------------- shape counters (evidence only)
+
+_UNSENDABLE = re.compile('[\x00\r\n]|[^\x00-\xff]')
+ECHOED = (b'cookie', b'host', b'x-custom')
+
+
+def shape_classes(data):
+    """Labels that MEASURE (from the bytes, not from the operator names) how often the generator produces the shapes
+    'folded header', 'character that cannot be sent on a folded line', 'long value with such a character at its end'.
+    Escapes are decoded with the codec the statement's anchors name (unicode_escape); evidence only, never a verdict."""
+    if len(data) > 4096 or (b'\r\n ' not in data and b'\r\n\t' not in data and b'\\' not in data and b'\x00' not in data):
+        return []
+    h = _head(data)
+    if h is None:
+        return []
+    logical = []
+    for ln in h[1]:
+        if ln[:1] in (b' ', b'\t') and logical:
+            logical[-1][1].append(ln)
+        elif b':' in ln:
+            name, val = ln.split(b':', 1)
+            logical.append((name.strip().lower(), [val]))
+        else:
+            logical.append((b'', [ln]))
+    out = set()
+    for name, parts in logical:
+        dec = []
+        for part in parts:
+            try:
+                dec.append(part.decode('unicode_escape'))
+            except UnicodeDecodeError:
+                dec.append(None)
+        if len(parts) > 1:
+            out.add('shape:folded-header')
+            if name in ECHOED:
+                out.add('shape:folded-echoed-header')
+            if any(x is not None and _UNSENDABLE.search(x) for x in dec[1:]):
+                out.add('shape:unsendable-char-on-folded-line')
+                if name in ECHOED:
+                    out.add('shape:unsendable-char-on-folded-line-of-echoed-header')
+        if None not in dec:
+            val = ''.join(dec).strip()
+            m = _UNSENDABLE.search(val)
+            if m and len(val[:m.start()].replace(' ', '').replace('\t', '')) >= 30:
+                out.add('shape:unsendable-char-after-30+-visible-chars')
+                if len(val) - m.start() <= 4:
+                    out.add('shape:unsendable-char-within-last-4-of-30+-chars-value')
+    return sorted(out)
+
+
+# ---------------------------------------------------------------------------------------------- watchdog for one delivery
+
+class LoopBlocked(BaseException):
+    """Raised by the watchdog's signal handler inside whatever is executing (typically a C-level loop that polls for
+    signals, e.g. a backtracking regular expression) to get control back from a handler that does not return."""
+
+
+class Watchdog:
+    """Bounds ONE delivery (fire + settle) that normally takes well under 5 ms.
+
+    The verdict is based on CPU time of this process (ITIMER_VIRTUAL / SIGVTALRM), not on the wall clock: an overloaded
+    or suspended machine cannot make correct code look blocked. A wall-clock timer (ITIMER_REAL / SIGALRM) of WALL_FACTOR
+    times the limit is the backstop for a handler that sleeps instead of spinning. circuits turns any BaseException of a
+    handler into an ``exception`` event and carries on, so the handler keeps firing (every second) until ``disarm``.
+    """
+
+    WALL_FACTOR = 6
+
+    def __init__(self):
+        self.installed = False
+        self.wall = True
+        self.armed = False
+        self.fired = None      # None | 'cpu' | 'wall'
+
+    def install(self, wall=True):
+        """Once per process (also in every forked pool worker). Signal handlers can only be set in the main thread."""
+        self.wall = wall
+        try:
+            signal.signal(signal.SIGVTALRM, self._on_timer)
+            if wall:
+                signal.signal(signal.SIGALRM, self._on_timer)
+            self.installed = True
+        except ValueError:
+            self.installed = False
+        self.armed = False
+        self._clear()
+
+    def _clear(self):
+        if self.installed:
+            signal.setitimer(signal.ITIMER_VIRTUAL, 0)
+            if self.wall:
+                signal.setitimer(signal.ITIMER_REAL, 0)
+
+    def _on_timer(self, signum, frame):
+        if not self.armed:
+            return
+        kind = 'cpu' if signum == signal.SIGVTALRM else 'wall'
+        if self.fired is None:
+            self.fired = kind
+        signal.setitimer(signal.ITIMER_VIRTUAL if kind == 'cpu' else signal.ITIMER_REAL, 1.0)
+        raise LoopBlocked(kind)
+
+    def run(self, limit, fn):
+        """fn() under the limit. True = it came back by itself; False = the watchdog had to interrupt it (self.fired)."""
+        self.fired = None
+        try:
+            try:
+                if self.installed:
+                    self.armed = True
+                    signal.setitimer(signal.ITIMER_VIRTUAL, limit)
+                    if self.wall:
+                        signal.setitimer(signal.ITIMER_REAL, limit * self.WALL_FACTOR)
+                fn()
+            finally:
+                # always cancelled; a signal that arrives from here on is ignored (armed is False) or, if it got in before
+                # this line, lands in the except clause below
+                self.armed = False
+                self._clear()
+        except LoopBlocked:
+            self.armed = False
+            self._clear()
+        return self.fired is None
+
+
 # ---------------------------------------------------------------------------------------------- atheris campaign (thorough tier)
 # python -m vlib.c14_helpers --out DIR --corpus /verif/corpus/C14 -runs=20000 -seed=1001
 # The fuzzer's bytes ARE the bytes on the connection (the property quantifies over byte sequences); a 4-byte prefix picks
@@ -698,6 +922,7 @@ def main(argv):
         import circuits.web.processors  # noqa
     from props import c14
     prop = c14.PROP
+    prop.watchdog_wall = False      # libFuzzer owns SIGALRM / ITIMER_REAL (-timeout); the CPU-time watchdog stays on
     prop.setup()
 
     def target(data):
